@@ -128,11 +128,11 @@ func VerifHarness_C03_FindField() {
 }
 
 func VerifHarness_C03_Accessible() {
-	exported := nondetChoice("exported", 2) == 1
-	name := "field"
-	if exported {
-		name = "Field"
-	}
+	// names beyond ASCII: a letter is upper or lower case as a rune, not by its first byte
+	names := []string{"field", "Field", "ärger", "Ärger", "ωmega", "Ωmega", "дата", "Дата", "ạnh", "Ạnh", "ḃit", "Ḃit", "_x", "x9"}
+	isExported := []bool{false, true, false, true, false, true, false, true, false, true, false, true, false, false}
+	ni := nondetChoice("name", len(names))
+	name, exported := names[ni], isExported[ni]
 	var pkg *types.Package
 	switch nondetChoice("pkg", 3) {
 	case 0:
